@@ -14,6 +14,7 @@ import sys
 
 sys.path.insert(0, os.path.dirname(os.path.abspath(__file__)))
 import anyio  # noqa: E402
+from contextlib import AsyncExitStack  # noqa: E402
 from asphalt.core import (  # noqa: E402
     start_service_task,
     Component,
@@ -27,7 +28,9 @@ from asphalt.core import (  # noqa: E402
 )
 from director import Director, backend_options, jump, run_guarded, settle  # noqa: E402
 
-TYPES = [type(f"R{i}", (), {}) for i in range(4)]
+# R1 is a subclass of R0 and R3 of R2: a resource published under a subclass is not one of the base class
+_R0, _R2 = type("R0", (), {}), type("R2", (), {})
+TYPES = [_R0, type("R1", (_R0,), {}), _R2, type("R3", (_R2,), {})]
 NAMES = ["default"] + [f"n{i}" for i in range(1, 20)]
 TIMEOUT = 20
 
@@ -145,7 +148,12 @@ def make_classes(prog, d, state):
                     if a[1] == 8:
                         # the component itself fails with a ComponentStartError (e.g. from a nested start_component)
                         exc = ComponentStartError("creating", "imaginary.path", Component)
-                        state["inner"] = exc
+                        state["inner"], state["inner_code"] = exc, 8
+                        raise exc
+                    if a[1] == 9:
+                        # ... or with an exception group with a single member (its own task group failed)
+                        exc = ExceptionGroup("the component's own task group", [Boom(99)])
+                        state["inner"], state["inner_code"] = exc, 9
                         raise exc
                     raise Boom(a[1])
                 elif k == "AddTd":
@@ -163,6 +171,10 @@ def make_classes(prog, d, state):
                     await run_script(True, c["start"])
                     d.obs("SE", i)
                 ns["start"] = start
+            if i % 3 == 1:
+                # prepare()/start() inherited from a mixin that is not a Component
+                hooks = {k: ns.pop(k) for k in ("prepare", "start") if k in ns}
+                return type(f"C{i}", (type(f"Hooks{i}", (), hooks), Component), ns)
             return type(f"C{i}", (Component,), ns)
         classes[i] = make()
     paths = {}
@@ -202,8 +214,8 @@ async def run_case(case):
             cause = e.__cause__
             result["outcome"] = {"k": "error", "phase": e.phase, "comp": paths.get(e.path, -1),
                                  "class_ok": e.component_type is classes[paths.get(e.path, 0)],
-                                 "cause": ["exc", cause.args[0]] if isinstance(cause, Boom) else
-                                 ["exc", 8] if cause is not None and cause is state.get("inner") else
+                                 "cause": ["exc", state["inner_code"]] if cause is not None and cause is state.get("inner") else
+                                 ["exc", cause.args[0]] if isinstance(cause, Boom) else
                                  ["conflict"] if type(cause).__name__ == "ResourceConflict" else ["other", type(cause).__name__]}
             d.obs("Raised")
         except TimeoutError:
@@ -218,8 +230,24 @@ async def run_case(case):
             done.set()
 
     done = anyio.Event()
+    nested = state["r"].random() < 0.5
+    elapsed = [0.0]
+
+    async def bystander(ctx):
+        # somebody else listens to the surrounding context's resource_added with a small queue and never reads
+        # it: that is their problem alone
+        async with ctx.resource_added.stream_events(max_queue_size=1) as stream:
+            async for _ in stream:
+                await anyio.sleep_forever()
+
     async with anyio.create_task_group() as tg:
-        async with Context() as ctx:
+        async with AsyncExitStack() as stack:
+            if nested:
+                await stack.enter_async_context(Context())      # the surrounding context need not be the outermost
+                stack.callback(lambda: d.obs("SurroundingLeft"))
+            ctx = await stack.enter_async_context(Context())
+            tg.start_soon(bystander, ctx)
+            await settle()
             tg.start_soon(copy_ctx_starter, ctx, starter)
             await settle()
             steps.append({"enabled": None, "obs": d.drain()})       # construction + the initial settle
@@ -231,10 +259,16 @@ async def run_case(case):
                 ch = choices.pop(0)
                 g = "T" if (timeout is not None and (ch == 7 or not comps)) else comps[ch % len(comps)]
                 if g == "T":
-                    await jump(TIMEOUT + 1)
+                    await jump(TIMEOUT + 1 - elapsed[0])
                 else:
                     d.open(g)
                     await settle()
+                    if timeout is not None and elapsed[0] == 0.0 and not done.is_set():
+                        # time passes while the tree starts: the deadline is counted from the call, not from
+                        # the last sign of life
+                        elapsed[0] = 0.6 * TIMEOUT
+                        await jump(elapsed[0])
+                        await settle()
                 steps.append({"enabled": en, "fired": g, "obs": d.drain()})
             # nothing may still be running or begin to run afterwards
             await jump(TIMEOUT + 1) if done.is_set() else None
@@ -250,7 +284,12 @@ async def run_case(case):
                 starter_scope.cancel()
                 await done.wait()
                 d.drain()
-        td = [o for o in d.drain() if o[0] == "Td"]
+        rest = d.drain()
+        if nested and ["SurroundingLeft"] in rest:
+            # what the tree registered is torn down when the surrounding context is left, not later
+            rest = rest[:rest.index(["SurroundingLeft"])]
+        td = [o for o in rest if o[0] == "Td"]
+        tg.cancel_scope.cancel()
     return {"backend": case["backend"], "prog": prog, "timeout": case["timeout"], "choices": case["choices"],
             "mode": case.get("mode"),
             "steps": steps, "outcome": result.get("outcome"), "finished": finished, "late": late,
